@@ -147,8 +147,9 @@ type EDrive struct {
 	Arg  Expr
 }
 type EAwait struct {
-	E      Expr
-	Tamper bool // the awaited promise has its 'constructor' property replaced: Await must wrap it in a new promise
+	E         Expr
+	Tamper    int // 1: the awaited promise has its 'constructor' replaced (Await must wrap it in a new promise); 2: its 'constructor' getter throws TamperVal (the await expression throws)
+	TamperVal int
 }
 type EAsyncStart struct { // call an async function; the value is its promise (only used as the operand of await)
 	Fn   string
@@ -185,6 +186,7 @@ type Program struct {
 const ctlHelpers = `
 function N(v) { return typeof v === 'number' ? v : -1; }
 function TP(p) { p.constructor = Object; return p; }
+function TG(p, v) { Object.defineProperty(p, 'constructor', { get: function() { throw v; } }); return p; }
 function mkIt(s, n, fl) {
   var i = 0;
   var it = {
@@ -490,8 +492,11 @@ func exprJS(e Expr) string {
 		op := [...]string{"next", "throw", "return"}[e.Op]
 		return fmt.Sprintf("R(%d, %s.%s(%s))", e.Site, e.Gen, op, exprJS(e.Arg))
 	case *EAwait:
-		if e.Tamper {
+		switch e.Tamper {
+		case 1:
 			return fmt.Sprintf("N(await TP(%s))", exprJS(e.E))
+		case 2:
+			return fmt.Sprintf("N(await TG(%s, %d))", exprJS(e.E), e.TamperVal)
 		}
 		return fmt.Sprintf("N(await %s)", exprJS(e.E))
 	case *EAsyncStart:
